@@ -21,7 +21,7 @@ S32 = [0x00000000, 0x80000000, 0x00000001, 0x807FFFFF, 0x7F7FFFFF, 0xFF7FFFFF, 0
 S64 = [0, 1 << 63, 1, 0x800FFFFFFFFFFFFF, 0x7FEFFFFFFFFFFFFF, 0xFFEFFFFFFFFFFFFF, 0x7FF0000000000000, 0xFFF0000000000000,
        0x7FF8000000000000, 0x3FF0000000000000, 0x3FB999999999999A]
 FMTS = [("csv", ["f32", "f64", "i32", "usize"]), ("arrow", ["f32", "f64", "i32"]), ("parquet", ["f32", "f64", "i32"]),
-        ("csv_tensor", ["f32"]), ("parquet_tensor", ["f32", "f64"])]
+        ("csv_tensor", ["f32", "f64"]), ("parquet_tensor", ["f32", "f64"])]
 
 
 def val(rng, ty):
